@@ -75,11 +75,17 @@ class ProtocolHandler:
         try:
             response, new_session_id = await handler(message, session_id)
         except Exception as e:
-            logging.error(f"Handler error for {method}: {e}")
+            # The exception itself may be unprintable (its __str__ can raise):
+            # reporting it must not make dispatch raise in turn
+            try:
+                detail = str(e)
+            except Exception:
+                detail = type(e).__name__
+            logging.error(f"Handler error for {method}: {detail}")
             if is_notification:
                 return None, None
             return self.create_error_response(
-                msg_id, -32603, f"Internal error: {str(e)}"
+                msg_id, -32603, f"Internal error: {detail}"
             ), None
 
         if is_notification:
